@@ -449,6 +449,18 @@ def run_world(rng, spec):
 
     all_asns = [(con, a, asn) for con in cons for a, asn in contests[con["id"]].assertions.items()]
     tabs = {}
+    # ---- in a share of the worlds the real workflow order: pool means of ALL assertions of ALL contests are set first
+    #      (in dict, reverse or shuffled order), and only then is each assertion evaluated.  No attribute of the
+    #      assertion / assorter objects is reassigned by the harness in these worlds.
+    preset = wr.random() < 0.4
+    if preset:
+        set_order = list(all_asns)
+        wr.choice([lambda l: None, lambda l: l.reverse(), wr.shuffle])(set_order)
+        for _, _, asn_ in set_order:
+            call(lambda: asn_.assorter.set_tally_pool_means(cvr_list=cvrs, tally_pools=None, use_style=s_style))
+        if wr.random() < 0.5:
+            call(lambda: M.Assertion.set_all_margins_from_cvrs(audit=audit, contests=contests, cvr_list=cvrs))
+        hit("workflow order: all pool means set before any assertion is evaluated")
     # ---- per assertion: pool means, margin, B on every pair, mvrs_to_data
     for con, a, asn in all_asns:
         cid, c_style, ua = con["id"], con["style"], C.frac(asn.assorter.upper_bound)
@@ -470,13 +482,17 @@ def run_world(rng, spec):
                 arg_labels = wr.sample(labs, wr.randint(0, len(labs)))
             else:
                 arg_labels = list(M.CVR.pool_contests(cvrs).keys())
-        if mode and wr.random() < 0.2:       # an earlier call with other settings is overwritten
+        if preset:
+            mode, m_style, arg_labels = 1, s_style, []
+        elif mode and wr.random() < 0.2:       # an earlier call with other settings is overwritten
             call(lambda: asn.assorter.set_tally_pool_means(cvr_list=cvrs, tally_pools=None, use_style=not m_style))
             asn.assorter.tally_pool_means = None if wr.random() < 0.5 else asn.assorter.tally_pool_means
             if asn.assorter.tally_pool_means is not None:
                 hit("pool means overwritten")
         prior = asn.assorter.tally_pool_means
-        if mode == 0:
+        if preset:      # set before the loop started; whatever the assorter holds now is what the code will use
+            impl_means = ("ok", [(ids.p(k), fl(v)) for k, v in prior.items()]) if prior is not None else ("raise", "EOther")
+        elif mode == 0:
             asn.assorter.tally_pool_means = prior = None
             impl_means = ("ok", [])
         else:
@@ -558,7 +574,8 @@ def run_world(rng, spec):
         # C03: identity over all cards under audit
         consistent = (mode == 0 or (impl_means[0] == "ok" and m_style == s_style)) and margin_given is None and not aerrs
         if consistent and con["atype"] != "POLLING":
-            v03 = oracle_margin(asn, cid, tab, cvrs, s_style, impl_margin) + \
+            v03 = (oracle_pool_means(asn, cid, tab, cvrs, s_style) if mode else []) + \
+                oracle_margin(asn, cid, tab, cvrs, s_style, impl_margin) + \
                 oracle_identity(asn, cid, ua, cvrs, mvrs, tab, n, s_style, impl_margin)
             for w, obs in v03:
                 out["oracle"].append({"what": w, "input": wjson(), "observed": obs, "signature": "C03:" + w[:40],
@@ -1060,4 +1077,114 @@ def run_big(ctx, n_worlds):
         runs += r
         for k, x in st.items():
             stats[k] = stats.get(k, 0) + x
+    return viol, runs, stats
+
+
+# ---------------------------------------------------------------------------------------------- worlds evaluated alternately
+def prepare_world(spec):
+    """build everything of a world with the library (contests, ALL assertions, CVRs, phantoms, pools, sample, MVRs)
+    without setting any pool mean or margin yet"""
+    M, NonnegMean = lib()
+    wr = C.Rng(spec["seed"] + 17)
+    cons, s_style = spec["cons"], spec["s_style"]
+    cvrs = [M.CVR(id=c["id"], votes=copy.deepcopy(c["votes"]), phantom=c["phantom"], tally_pool=c["tally_pool"],
+                  pool=c["pool"]) for c in spec["cards"]]
+    contests = build_contests(M, NonnegMean, spec, len(cvrs) + 3)
+    audit = M.Audit.from_dict({"seed": 1, "sim_seed": 2, "quantile": 0.8, "error_rate_1": 0.001, "error_rate_2": 0.0,
+                               "reps": 10, "strata": {"s": {"max_cards": len(cvrs), "use_style": s_style,
+                                                            "replacement": False, "audit_type": cons[0]["atype"],
+                                                            "test": NonnegMean.alpha_mart,
+                                                            "estimator": NonnegMean.fixed_alternative_mean,
+                                                            "test_kwargs": {}}}})
+    ph = spec["ph"]
+    if ph["mode"] == "make":
+        for con in cons:
+            contests[con["id"]].cards = sum(1 for c in cvrs if c.has_contest(con["id"])) + ph["extra"][con["id"]]
+        audit.strata["s"].max_cards = len(cvrs) + max(ph["extra"].values())
+        cvrs, _ = M.CVR.make_phantoms(audit=audit, contests=contests, cvr_list=cvrs, prefix="phantom-",
+                                      tally_pool=ph["tally_pool"], pool=ph["pool"])
+    if wr.random() < 0.8:
+        M.CVR.add_pool_contests(cvrs, M.CVR.pool_contests(cvrs))
+    n = len(cvrs)
+    nums = list(range(1, n + 1))
+    wr.shuffle(nums)
+    for c, x in zip(cvrs, nums):
+        c.sample_num = x
+    for con in cons:
+        contests[con["id"]].sample_threshold = wr.choice(nums)
+    top = max(contests[c["id"]].sample_threshold for c in cons)
+    sample = [i for i in sorted(range(n), key=lambda i: cvrs[i].sample_num) if cvrs[i].sample_num <= top]
+    mvrs = []
+    for c in cvrs:
+        m = gen_mvr(wr, spec, cons, c)
+        mvrs.append(M.CVR(id=c.id, votes=copy.deepcopy(m["votes"]), phantom=m["phantom"]))
+    all_asns = [(con, a, asn) for con in cons for a, asn in contests[con["id"]].assertions.items()]
+    return {"M": M, "spec": spec, "rng": wr, "cvrs": cvrs, "mvrs": mvrs, "contests": contests, "audit": audit,
+            "sample": sample, "asns": all_asns, "bulk": wr.random() < 0.5}
+
+
+def reorder(rng, l):
+    l = list(l)
+    k = rng.randrange(3)
+    if k == 1:
+        l.reverse()
+    elif k == 2:
+        rng.shuffle(l)
+    return l
+
+
+def set_phase(W):
+    """pool means and margins of ALL assertions of the world, as an audit script does"""
+    M, cvrs, s_style = W["M"], W["cvrs"], W["spec"]["s_style"]
+    for _, _, asn in reorder(W["rng"], W["asns"]):
+        call(lambda: asn.assorter.set_tally_pool_means(cvr_list=cvrs, tally_pools=None, use_style=s_style))
+        if not W["bulk"]:
+            call(lambda: asn.set_margin_from_cvrs(W["audit"], cvrs))
+    if W["bulk"]:
+        call(lambda: M.Assertion.set_all_margins_from_cvrs(audit=W["audit"], contests=W["contests"], cvr_list=cvrs))
+
+
+def eval_phase(W):
+    """the oracles for every assertion of the world, after every setter of this (and possibly another) world ran"""
+    spec, cvrs, mvrs, contests, sample = W["spec"], W["cvrs"], W["mvrs"], W["contests"], W["sample"]
+    s_style, n = spec["s_style"], len(cvrs)
+    s_cvrs, s_mvrs = [cvrs[i] for i in sample], [mvrs[i] for i in sample]
+    out, runs = [], 0
+    for con, a, asn in reorder(W["rng"], W["asns"]):
+        cid, ua = con["id"], C.frac(asn.assorter.upper_bound)
+        tab, aerrs = assort_table(asn, cvrs + mvrs)
+        margin = fl(asn.margin) if asn.margin is not None else float("nan")
+        found = []
+        if not aerrs:
+            found += [("C03", w, o) for w, o in oracle_pool_means(asn, cid, tab, cvrs, s_style)]
+            found += [("C03", w, o) for w, o in oracle_margin(asn, cid, tab, cvrs, s_style, margin)]
+            if con["atype"] != "POLLING":
+                found += [("C03", w, o) for w, o in oracle_identity(asn, cid, ua, cvrs, mvrs, tab, n, s_style, margin)]
+        if con["style"] == s_style:
+            r2 = call(lambda: asn.mvrs_to_data(s_mvrs, s_cvrs))
+            impl_data = ("ok", ([fl(x) for x in np.atleast_1d(r2[1][0])], fl(r2[1][1]))) if r2[0] == "ok" else ("raise", r2[1])
+            found += [("C06", w, o) for w, o in oracle_data(asn, con, cid, ua, s_mvrs, s_cvrs, contests[cid].sample_threshold,
+                                                            False, impl_data, margin, None, 1, aerrs, r2)]
+        runs += 1
+        for prop, w, o in found:
+            out.append({"what": w, "observed": o, "signature": f"{prop}:workflow:" + w[:40], "prop": prop,
+                        "input": world_json(spec, cvrs, mvrs, contests, sample, extra={
+                            "contest": cid, "assertion": a, "all assertions of the world": [(c["id"], x) for c, x, _ in W["asns"]],
+                            "workflow": "every assertion's set_tally_pool_means and margin setter ran (for this and for a second "
+                                        "world built in the same process) before this assertion was evaluated"})})
+    return out, runs
+
+
+def run_alternating(ctx, n_pairs):
+    """two worlds in one process: build A, build B, set A, set B, then evaluate both (either order)"""
+    viol, runs, stats = [], 0, {}
+    for _ in range(n_pairs):
+        A, B = prepare_world(gen_world(ctx.rng)), prepare_world(gen_world(ctx.rng))
+        set_phase(A)
+        set_phase(B)
+        for W in ((A, B) if ctx.rng.random() < 0.5 else (B, A)):
+            v, r = eval_phase(W)
+            viol += v
+            runs += r
+        stats["pairs of worlds set first, evaluated afterwards"] = stats.get("pairs of worlds set first, evaluated afterwards", 0) + 1
     return viol, runs, stats
